@@ -560,7 +560,7 @@ pub fn check(args: &[String]) -> i32 {
     let tier: &str = if tier == "thorough" { "thorough" } else { "quick" };
     let seed = arg_value(args, "--seed").and_then(|s| s.parse::<i64>().ok()).map(|v| v as u64).unwrap_or_else(simcore::env_seed);
     let verif = PathBuf::from(arg_value(args, "--verif").unwrap_or_else(|| "/verif".into()));
-    let default_runs: u64 = if tier == "thorough" { 60_000_000 } else { 1_500_000 };
+    let default_runs: u64 = if tier == "thorough" { 60_000_000 } else { 3_000_000 };
     let max_runs: u64 = arg_value(args, "--runs").and_then(|s| s.parse().ok()).unwrap_or(default_runs);
     let wall_cap: f64 = arg_value(args, "--wall").and_then(|s| s.parse().ok()).unwrap_or(if tier == "thorough" { 240.0 } else { 12.0 });
     let part = arg_value(args, "--part").unwrap_or_else(|| "default".into());
